@@ -32,6 +32,14 @@ Two runs (DESIGN.md §5 C06):
       - the unmodified reply is accepted and installs working keys (non-vacuity: the fake
         accessory can decrypt what the client sends afterwards).
 
+Repaired tree (fix: commits merged from other builders): AirPlay's _get_pairing_data rejects a
+TLV with an Error item; MRP and Companion verify_credentials parse the M4 reply and require
+SeqNo 4 without Error.  The fake accessories therefore answer M3 with a configurable M4
+(`m4` variant key: well-formed, Error item, wrong/absent/duplicated SeqNo, malformed TLV, absent,
+not bytes, or the exchange failing); the symbolic run compares the decision with the model's
+`checkM4`; the property's oracle itself only speaks about M2, so for M4 variants it requires
+the keys<=>success consistency and records the outcome (`real-m4:*`).
+
 DECISION on AirPlay's exception class (documented in meta/C06.json too): the property says a
 rejected reply "makes connecting fail with an authentication error".  `verify_connection`
 has no error mapping: AuthenticationError is raised for a wrong identifier / signature, but
@@ -402,6 +410,49 @@ def build_reply(w, v, client_pub):
     return "bytes", pd
 
 
+M4_RAISES = ("timeout", "protocol", "http", "auth")  # the exchange of M3 itself fails
+M4_ACK = ("ok", "seq4_split", "extra")                # a well-formed acknowledgement (SeqNo 4, no error)
+
+
+def build_m4(kind):
+    """The accessory's answer to M3 -> (pdkind, pd); None when the exchange is made to fail."""
+    if kind in M4_RAISES:
+        return None
+    if kind == "ok":
+        return "bytes", tlv_bytes([(TAG_SEQ, b"\x04")])
+    if kind == "seq4_split":
+        return "bytes", bytes([TAG_SEQ, 0]) + tlv_bytes([(0x42, b"x"), (TAG_SEQ, b"\x04")])
+    if kind == "extra":
+        return "bytes", tlv_bytes([(0x42, b"hello"), (TAG_SEQ, b"\x04")])
+    if kind == "error":
+        return "bytes", tlv_bytes([(TAG_SEQ, b"\x04"), (TAG_ERR, b"\x02")])
+    if kind == "error_only":
+        return "bytes", tlv_bytes([(TAG_ERR, b"\x02")])
+    if kind == "seq5":
+        return "bytes", tlv_bytes([(TAG_SEQ, b"\x05")])
+    if kind == "seq2":
+        return "bytes", tlv_bytes([(TAG_SEQ, b"\x02")])
+    if kind == "seq_long":
+        return "bytes", tlv_bytes([(TAG_SEQ, b"\x04\x00")])
+    if kind == "seq_dup":
+        return "bytes", tlv_bytes([(TAG_SEQ, b"\x04"), (TAG_SEQ, b"\x04")])
+    if kind == "seq_empty":
+        return "bytes", bytes([TAG_SEQ, 0])
+    if kind == "noseq":
+        return "bytes", tlv_bytes([(0x42, b"x")])
+    if kind == "dangling":
+        return "bytes", tlv_bytes([(TAG_SEQ, b"\x04")]) + bytes([0x42])
+    if kind == "empty":
+        return "bytes", b""
+    if kind in ("absent", "notbytes"):
+        return kind, b""
+    raise ValueError("unknown m4 kind %r" % (kind,))
+
+
+def pd_word(kind, pd):
+    return {"bytes": "b:" + (hx(pd) if pd else "-"), "absent": "absent", "notbytes": "notbytes"}[kind]
+
+
 def reference_accepts(w, pdkind, pd):
     """The property's acceptance condition, evaluated with `cryptography` only (no pyatv):
     the reply carries the stored identifier and a signature by the stored long-term key over
@@ -770,12 +821,14 @@ async def attempt_mrp(case, loop):
                 deliver(resp)
             elif seq == b"\x03":
                 case.got_m3(msg.inner().pairingData)
-                if case.m4 == "ok":
+                m4 = build_m4(case.m4)
+                if m4 is not None:
                     resp = messages.create(protobuf.CRYPTO_PAIRING_MESSAGE)
                     resp.inner().status = 0
-                    resp.inner().pairingData = tlv_bytes([(TAG_SEQ, b"\x04")])
+                    if m4[0] == "bytes":
+                        resp.inner().pairingData = m4[1]
                     deliver(resp)
-                    if real:
+                    if real and case.m4 in M4_ACK:
                         state["enc"] = case.accessory_keys()
         elif msg.identifier:
             deliver(messages.create(msg.type, identifier=msg.identifier))
@@ -845,8 +898,14 @@ async def attempt_companion(case, loop):
                 deliver(FrameType.PV_Next, {"_pd": "not bytes"})
         elif ftype == FrameType.PV_Next.value and seq == b"\x03":
             case.got_m3(obj.get("_pd", b""))
-            if case.m4 == "ok":
-                deliver(FrameType.PV_Next, {"_pd": tlv_bytes([(TAG_SEQ, b"\x04")])})
+            m4 = build_m4(case.m4)
+            if m4 is not None:
+                if m4[0] == "bytes":
+                    deliver(FrameType.PV_Next, {"_pd": m4[1]})
+                elif m4[0] == "absent":
+                    deliver(FrameType.PV_Next, {"_x": 2})
+                else:
+                    deliver(FrameType.PV_Next, {"_pd": "not bytes"})
             elif case.m4 == "protocol":
                 deliver(FrameType.PV_Next, {"_em": "verif: accessory refuses"})
 
@@ -914,8 +973,14 @@ async def attempt_airplay(case, loop):
                 respond(200, b"not bytes", ctype="text/plain")
         elif seq == b"\x03":
             case.got_m3(body)
-            if case.m4 == "ok":
-                respond(200, tlv_bytes([(TAG_SEQ, b"\x04")]))
+            m4 = build_m4(case.m4)
+            if m4 is not None:
+                if m4[0] == "bytes":
+                    respond(200, m4[1])
+                elif m4[0] == "absent":
+                    respond(200, b"")
+                else:
+                    respond(200, b"not bytes", ctype="text/plain")
             elif case.m4 == "http":
                 respond(500, b"")
             elif case.m4 == "auth":
@@ -1125,10 +1190,12 @@ REAL_ONLY = [
     {"pub_mut": {"set": "01" + "00" * 31}},
 ]
 
+M4_REPLIES = ["seq4_split", "extra", "error", "error_only", "seq5", "seq2", "seq_long", "seq_dup", "seq_empty",
+              "noseq", "dangling", "empty", "absent", "notbytes"]
 M4_VARIANTS = {
-    "mrp": [{"m4": "timeout"}],
-    "companion": [{"m4": "timeout"}, {"m4": "protocol"}],
-    "airplay": [{"m4": "timeout"}, {"m4": "http"}, {"m4": "auth"}],
+    "mrp": [{"m4": k} for k in ["timeout"] + M4_REPLIES],
+    "companion": [{"m4": k} for k in ["timeout", "protocol"] + M4_REPLIES],
+    "airplay": [{"m4": k} for k in ["timeout", "http", "auth"] + M4_REPLIES],
 }
 
 FIELD_BITS = {"pub": 32 * 8, "enc": 120 * 8, "ident": 36 * 8, "sig": 64 * 8}
@@ -1187,10 +1254,12 @@ def canon_variant(v):
 # ----------------------------------------------------------------------------------------
 def lean_line(w, transport, case):
     kind, pd = case.sent_pd if case.sent_pd else ("absent", b"")
-    pdw = {"bytes": "b:" + (hx(pd) if pd else "-"), "absent": "absent", "notbytes": "notbytes"}[kind]
+    pdw = pd_word(kind, pd)
     cr = w.crypto
+    m4 = build_m4(case.m4)
+    m4w = "raise:" + case.m4 if m4 is None else "r:" + pd_word(*m4)
     return " ".join(["connect", transport, hx(w.a_ltpk), hx(w.client_ltsk), hx(w.a_id), hx(w.client_id),
-                     hx(w.client_x), hx(cr.x_pub(w.client_x)), pdw, case.m4])
+                     hx(w.client_x), hx(cr.x_pub(w.client_x)), pdw, m4w])
 
 
 def impl_line(case):
@@ -1276,6 +1345,8 @@ def run_real(ctx, only=None):
                      sample={"mode": "real", "transport": t, "variant": v, "observed": obs.summary()} if not ref else None)
             check_consistency(ctx, case, t, "real", v)
             m4_fails = case.m4 != "ok"
+            if m4_fails:
+                ctx.note(f"real-m4:{t}:{case.m4}:" + ("accept" if obs.exc is None else obs.exc))
             if not ref:
                 # THE PROPERTY: any other reply makes connecting fail with an authentication error
                 # and leaves the connection without encryption keys
